@@ -341,6 +341,13 @@ func (c *compiler) compileExpList(exps []ast.ExpNode, dstRegs []ir.Register) {
 		c.TakeRegister(dst)
 		dstRegs[i] = dst
 	}
+	// Expressions in excess of the destinations are still evaluated (they may
+	// have side effects), their values are discarded.
+	if len(exps) > len(dstRegs) {
+		for _, exp := range exps[len(dstRegs):] {
+			c.compileExpInto(exp, c.GetFreeRegister())
+		}
+	}
 	for i := commonCount; i < len(dstRegs); i++ {
 		dst := c.GetFreeRegister()
 		c.TakeRegister(dst)
